@@ -191,6 +191,36 @@ def validate_on(wd, i, c, cases):
     return out
 
 
+def typed_pairs():
+    """hand-written programs that look at one value `v` in type-sensitive ways, over documents whose `v` is a
+    whole-valued float, a float with a fraction, an int, a string of digits, a bool, null: the test command
+    must evaluate the very document validate evaluates"""
+    def key(name):
+        return [{"p": "key", "k": [ord(ch) for ch in name]}]
+
+    def un(op, neg=False):
+        return {"c": "gac", "q": key("v"), "all": True, "neg": neg, "op": op, "on": False, "rhs": []}
+
+    def cmp_(op, val):
+        return {"c": "gac", "q": key("v"), "all": True, "neg": False, "op": op, "on": False, "rhs": [{"r": "val", "v": val}]}
+    flt = lambda m: {"t": "flt", "v": m}
+    it = lambda n: {"t": "int", "v": n}
+    rules = [("is_f", un("is_float")), ("is_i", un("is_int")), ("is_s", un("is_string")),
+             ("eq_f2", cmp_("eq", flt(2000))), ("eq_i2", cmp_("eq", it(2))), ("le_f", cmp_("le", flt(2500))),
+             ("le_i", cmp_("le", it(100))), ("ge_f0", cmp_("ge", flt(0)))]
+    prog = {"lets": [], "prules": [], "rules": [{"n": n, "w": [], "lets": [], "b": [[c]]} for n, c in rules]}
+    vals = [flt(2000), flt(0), flt(20000), flt(1500), it(2), it(0), {"t": "str", "v": [50, 46, 48]}, {"t": "bool", "v": True}, {"t": "null"}]
+    out = []
+    for v in vals:
+        doc = {"t": "map", "k": [[118], [119]], "v": [v, {"t": "list", "v": [flt(2000), it(2)]}]}
+        out.append({"prog": json.loads(json.dumps(prog)), "doc": doc})
+    lines = "\n".join(json.dumps(c) for c in out)
+    rendered = [json.loads(l) for l in gv(["render-many"], input=lines).split("\n") if l.strip()]
+    for c, r in zip(out, rendered):
+        c["rules"], c["data"] = r["rules"], r["data"]
+    return out
+
+
 def record(res, tier, tr):
     open(tr + ".events", "w").close()
     n = 30 if tier == "quick" else 500
@@ -205,6 +235,8 @@ def record(res, tier, tr):
             clitrace.add_refs(pairs[0::2])
             # every fifth rules file has a rule called `default`
             clitrace.name_default(pairs[1::3], bare=True)
+            if ci == 0:
+                pairs = typed_pairs() + pairs
             for k, c in enumerate(pairs):
                 names = sorted({r["n"] for r in c["prog"]["rules"]})
                 ncases = rnd.choice([1, 2, 2, 3, 3, 4])
